@@ -31,3 +31,13 @@ package utils
 //@   property C33
 //@   ensures [unlink-while-held] old(flockHeld) && !old(unlinkedWhileUnlocked) ==> !unlinkedWhileUnlocked
 //@   ensures [handle-cleared] l != nil ==> isnil(l.file)
+
+// C14 (SST blocks, index, manifest-less checksums): VerifyChecksum answers nil only when
+// the stored 8-byte big-endian value equals the CRC-32C of exactly `data`, and refuses every
+// mismatch (crc32c is an uninterpreted function of the byte contents).
+//@ func VerifyChecksum
+//@   property C14
+//@   exit [checksum-gate] result == nil ==> len(expected) >= 8 && uint64(crc32c(data)) == expectedU64
+//@   exit [short-checksum-is-refused] len(expected) < 8 ==> result != nil
+//@   exit [mismatch-is-refused] len(expected) >= 8 && uint64(crc32c(data)) != kv.BytesToU64(expected) ==> result != nil
+//@   modifies nothing
